@@ -71,7 +71,15 @@ def gen_forms(rng, tree):
     names = ["gen", "sub", "lib", "deep", "docs", "checks", ".hidden", "generic", "a.b", "src"]
     forms = []
     for _ in range(rng.choice([0, 1, 1, 2, 3])):
-        k = rng.choice(["dir", "dir", "anydir", "anydir", "ext", "ext", "exact", "globdir", "globdir", "dirpath", "dirpath"])
+        k = rng.choice(["dir", "dir", "anydir", "anydir", "ext", "ext", "exact", "globdir", "globdir", "dirpath", "dirpath", "anyfile", "anyfile"])
+        if k == "anyfile":
+            # `**/name` : a file of that name at any depth - half of the time a name that occurs at the top level of the tree
+            files = all_files(tree)
+            top = [f for f in files if len(f) == 1]
+            pick = rng.choice(top) if (top and rng.random() < 0.5) else (rng.choice(files) if files else None)
+            if pick:
+                forms.append({"form": "anyfile", "n": pick[-1]})
+            continue
         if k == "dirpath":
             # a directory given by its path from the root (two components), with whatever lies below it at any depth
             two = [[n["d"], m["d"]] for n in tree if "d" in n for m in n["k"] if "d" in m]
